@@ -96,6 +96,22 @@ def judge(rec, price, ops):
     return []
 
 
+def coq_queries(rec, price, ops):
+    out, prev = [], None
+    for o in rec["ops"]:
+        I = o["I"]
+        if I in ("panic", "skipped", "timeout") or I.startswith("read="):
+            continue
+        d = lvl.kv(I.split(" || ")[0])
+        if o["op"].startswith("MATCH ") and prev is not None and "txs" in d:
+            _, qty, taker = o["op"].split(" ")
+            out.append((o["i"], "acct %d %s %s %s %s %s %s" % (price, qty, taker, prev["vec"], d["txs"], d["rem"], d["complete"]),
+                        "`%s`: the match result is not fully accounted for" % o["op"]))
+        if "vec" in d and d.get("built", "ok") == "ok":
+            prev = d
+    return out
+
+
 def corr_filter(text):
     return any(k in text for k in ("transaction", "filled", " rem ", " complete ", " exec ", "steps", "panic", "model=", " n "))
 
@@ -114,4 +130,4 @@ def make_cases(rng, tier):
 
 def run(tier, seed, replay=None):
     return run_property("C02", tier, seed, replay, make_cases=make_cases, judge=judge, corr_filter=corr_filter,
-                        nontrivial=lambda rec, price, ops: any(o.startswith("MATCH") for o in ops))
+                        nontrivial=lambda rec, price, ops: any(o.startswith("MATCH") for o in ops), coq_queries=coq_queries)
